@@ -186,10 +186,11 @@ func randomBuild(pattern string, build func(string) (Cgroup, error)) (Cgroup, er
 	for {
 		name := prefix + nextRandom() + suffix
 		cg, err := build(name)
-		if err == nil {
+		if err == nil && !cg.Existing() {
 			return cg, nil
 		}
-		if errors.Is(err, os.ErrExist) || (cg != nil && cg.Existing()) {
+		// the name is taken (build opens existing groups without error): try another one
+		if err == nil || errors.Is(err, os.ErrExist) || (cg != nil && cg.Existing()) {
 			if try++; try < 10000 {
 				continue
 			}
